@@ -131,7 +131,7 @@ impl Write for SimDest {
                 Ok(0)
             }
             None => {
-                if self.plan.short_entry > 0 && (buf.len() == 12 || buf.len() == 8) && (self.plan.short_entry as usize) < buf.len() {
+                if self.plan.short_entry > 0 && (buf.len() == 12 || buf.len() == 8 || buf.len() == 4 || buf.len() == 2) && (self.plan.short_entry as usize) < buf.len() {
                     accept = self.plan.short_entry as usize;
                     self.fx_fired.push((n, DestFx::Short(self.plan.short_entry)));
                 }
